@@ -28,7 +28,8 @@ def plan(tier, seed):
                 'in which some rule is observed more than once' % pool_n,
         'bound': ', '.join('n=%d:u<=%d' % s for s in specs) + '; pairs from n <= %d' % pool_n,
         'exhaustive': True,
-        'assumptions': ['counts of a rule = sum over its vertical contexts'],
+        'assumptions': ['counts of a rule = sum over its vertical contexts',
+                        'two-tree treebanks are extracted incrementally: the grammar is binarized once after the first tree, then again after the second'],
     }
 
 
@@ -75,8 +76,10 @@ def check_bank(mtjs, cfg):
     roots = collections.Counter()
     repeated = False
     try:
-        for mt in mts:
+        for k, mt in enumerate(mts):
             grammar.extract(build(mt), g, lex)
+            if k < len(mts) - 1 and cfg is not None:
+                run_binarize(g, cfg)        # the grammar is also used while it is still growing
             roots[mt.root[0]] += 1
             for nd, _ in model.mt_nodes(mt.root):
                 nodes[nd[0]] += 1
@@ -137,6 +140,8 @@ def run_chunk(chunk):
             for n in range(2, chunk['n'] + 1):
                 for sh, _ in model.shapes_with_unary(n, 1):
                     pool.extend(labelings(sh))
+            for sh in ((1, 2, 3, 4), ((1, 2, 3, 4), 5), ((1, 3, 4, 5), 2), ((1, 2, 3, 4, 5),), ((1, 2, 4, 5), 3)):
+                pool.extend(list(labelings(sh))[:1])      # rank 4/5 rules, so that chains have intermediate rules
             pairs = list(itertools.product(range(len(pool)), repeat=2))
             bank = None
             for i, (a, b) in enumerate(pairs):
